@@ -71,6 +71,11 @@ def full_range(e, name):
     return path_text(lo).endswith(name + ".0") and path_text(hi).endswith(name + ".1")
 
 
+def inside_blocks(bq, head, q):
+    """blocks of one visit of a slot: the loop body (loop form) or None (closure form: the whole closure)"""
+    return None if head is None else q.body.loop_body(head)
+
+
 def run(ctx):
     m = Model(ctx)
     fns = agent_fns(ctx)
@@ -436,6 +441,28 @@ def run(ctx):
                 return bq.cfg.can_reach(a_, b_)
             outside = [x for x in range(len(bq.body.blocks)) if x not in inside] + [head]
             return b_ in bq.cfg.reach_from(a_, cut_blocks=[x for x in outside if x != a_])
+        # an activated slot always acts: every path of one visit on which the activity draw succeeded passes the cancel or the
+        # place call (a slot holding the id of an order that is no longer Active places a new order, it is not just cleared)
+        act_edges = []
+        for blk_ in bq.body.blocks:
+            t_ = blk_.term
+            if blk_.cleanup or t_ is None or t_.k != "switch" or (inside_blocks(bq, head, q) is not None and blk_.i not in inside_blocks(bq, head, q)):
+                continue
+            for s_ in set(bq.body.succs(blk_.i)):
+                if any(a_acts(a) for a in bq.cfg.edge_atoms(blk_.i, s_)):
+                    act_edges.append((blk_.i, s_))
+        idle = False
+        for (_b, s_) in act_edges:
+            if head is None:
+                r_ = bq.cfg.reach_from(s_, cut_blocks=[c0.b, p0.b])
+                idle = idle or any(rb in r_ for rb in bq.body.return_blocks())
+            else:
+                ins_ = q.body.loop_body(head)
+                outside_ = [x for x in range(len(bq.body.blocks)) if x not in ins_]
+                r_ = bq.cfg.reach_from(s_, cut_blocks=[c0.b, p0.b] + outside_)
+                idle = idle or head in r_
+        ctx.check(bool(act_edges) and not idle, "activity", tag + "|always-acts", p0.loc(), "an activated slot always submits an instruction: it cancels its Active order or places a new one",
+                  "an activated agent can finish its turn without cancelling or placing (e.g. a slot holding the id of a filled order is only cleared): an action with probability >= 1 does not always happen")
         compl = not reaches(c0.b, p0.b) and not reaches(p0.b, c0.b)
         ctx.check(compl, "random", tag + "|exclusive", p0.loc(), "placing and cancelling are on complementary branches (at most one live order per slot)",
                   "a slot can both cancel and place in one visit")
